@@ -254,3 +254,54 @@ fn ki8_sync_then_inflate() {
     core::mem::forget(strm);
     core::mem::forget(state);
 }
+
+// KA2 (inflate side) — inflateEnd: the state block goes back to zfree exactly once with the original pointer and opaque.
+static mut IEND_ARENA: [u8; 192] = [0xEE; 192];
+static mut IEND_FREED: usize = 0;
+static mut IEND_FREE_CALLS: u32 = 0;
+static mut IEND_OPAQUE_OK: bool = true;
+const IEND_OPAQUE: usize = 0x5b5b;
+
+unsafe extern "C" fn iza_arena(o: *mut core::ffi::c_void, _items: u32, _size: u32) -> *mut core::ffi::c_void {
+    unsafe {
+        IEND_OPAQUE_OK &= o as usize == IEND_OPAQUE;
+        (core::ptr::addr_of_mut!(IEND_ARENA) as *mut u8).add(5) as *mut core::ffi::c_void
+    }
+}
+unsafe extern "C" fn izf_arena(o: *mut core::ffi::c_void, p: *mut core::ffi::c_void) {
+    unsafe {
+        IEND_OPAQUE_OK &= o as usize == IEND_OPAQUE;
+        IEND_FREED = p as usize;
+        IEND_FREE_CALLS += 1;
+    }
+}
+
+#[kani::proof]
+#[kani::unwind(8)] // mem::swap of the Window struct is a chunked byte-swap loop
+#[kani::stub(core::fmt::write, stub_fmt_write)]
+#[kani::stub(core::panicking::panic_nounwind, stub_pn)]
+#[kani::stub(core::panicking::panic_nounwind_fmt, stub_pnf)]
+fn ka2_inflate_end_releases_once() {
+    let mut win = [0u8; 8 + 64];
+    let mode = match kani::any::<u8>() % 6 {
+        0 => Mode::Head,
+        1 => Mode::CopyBlock,
+        2 => Mode::Match,
+        3 => Mode::Done,
+        4 => Mode::Bad,
+        _ => Mode::Mem,
+    };
+    let mut state = typed_state(&mut win, kani::any::<u8>() & 7, mode);
+    let alloc = Allocator { zalloc: iza_arena, zfree: izf_arena, opaque: IEND_OPAQUE as *mut core::ffi::c_void, _marker: PhantomData };
+    let block = alloc.allocate_slice_raw::<u8>(64).unwrap();
+    state.allocation_start = block.as_ptr();
+    state.total_allocation_size = 64;
+    let mut strm = typed_stream(unsafe { &mut *(&mut state as *mut State) });
+    strm.alloc = alloc;
+    let z = end(&mut strm);
+    assert!(z.state.is_null());
+    assert!(unsafe { IEND_FREE_CALLS } == 1 && unsafe { IEND_OPAQUE_OK });
+    assert!(unsafe { IEND_FREED } == unsafe { core::ptr::addr_of!(IEND_ARENA) as usize } + 5);
+    kani::cover!(matches!(mode, Mode::Match));
+    core::mem::forget(state);
+}
